@@ -204,6 +204,12 @@ class Interp:
             self.trace = []
             self.paths_run += 1
             self_obj, args, kwargs = made
+            if qual not in self.stubs:
+                # the harness's own call must fit the entry function's signature as it is today
+                try:
+                    self.bind(qual, self.repo.func(qual), self_obj, list(args), dict(kwargs))
+                except PyExc as ex:
+                    raise AnalysisError(f"anchor moved: the signature of {qual} no longer takes the harness's arguments ({ex.args_[0] if ex.args_ else ex.cls})")
             try:
                 val = self.call_qual(qual, self_obj, list(args), dict(kwargs))
                 out = Outcome("return", val, None, list(self.path.assumptions))
